@@ -88,6 +88,9 @@ Theorem C13_echo4_ignored : forall s r views,
 Proof. exact echo4_ignored_l. Qed.
 Print Assumptions C13_echo4_ignored.
 
+(* every IPv6 echo request, however the link endpoint split it into views (first view >= the 8 header
+   bytes): one reply from the pinged address to the requester, type 129, code / identifier / sequence
+   number / data copied, and a checksum that passes the RFC 4443 pseudo-header verification *)
 Theorem C13_echo6_mirrors : forall r views,
   views_ok views -> bytes_ok (r_local r) -> bytes_ok (r_remote r) ->
   length (r_local r) = 16%nat -> length (r_remote r) = 16%nat ->
